@@ -115,6 +115,16 @@ def triple_executions(a, b, c, every=1, offset=0):
             yield [init(3)] + il
 
 
+def lfo_pair_executions(a, b, every=1, offset=0):
+    """The LFO step is latched when register 0x22 is written: one instance switches its LFO on and plays an
+    LFO-sensitive patch while the other one changes its chip rate (run-at-PCM-rate, other sample rate)."""
+    ha = [create(a, 44100), {"e": "Lfo", "v": 1}, on(60, 1), gen(1024), gen(1024)]
+    hb = [create(b, 48000), {"e": "Pcm", "v": 1}, gen(128)]
+    for q, il in enumerate(interleavings([ha, hb])):
+        if q % every == offset % every:
+            yield [init(2)] + il
+
+
 CRITICAL_PAIRS = [(1, 8), (8, 1), (4, 4), (2, 2), (0, 5), (1, 1), (8, 8)]
 
 
@@ -126,6 +136,8 @@ def exhaustive_executions(quick, seed):
                 hs += list(pair_executions(a, b, 1 if not quick else 3, seed))
             else:
                 hs += list(pair_executions(a, b, 9 if not quick else 42, seed + a * 8 + b))
+    for (a, b) in [(4, 4), (4, 5), (5, 4), (4, 2), (0, 4), (2, 2), (5, 5)]:
+        hs += list(lfo_pair_executions(a, b, 1 if not quick else 4, seed))
     trip = [(1, 8, 4), (8, 4, 1), (4, 1, 8), (0, 2, 5), (3, 6, 2), (2, 5, 0)]
     for (a, b, c) in trip:
         hs += list(triple_executions(a, b, c, 40 if not quick else 240, seed + a))
